@@ -85,7 +85,7 @@ fn stub_escape_line(_line: usize, raw: &str) -> (Vec<(Cell, String)>, String) {
     (Vec::with_capacity(1), s)
 }
 
-//@ harness: o4_5_cells_are_columns2 props=C04 tier=thorough obl=O4.5 timeout=3400 mem=30
+//@ harness: o4_5_cells_are_columns2 props=C04 tier=stretch obl=O4.5 timeout=3400 mem=30
 //@ desc: From<StringBuffer> for CellBuffer on one row of 2 symbolic characters (any scalar except the double quote; NUL filler and blanks included): the buffer holds exactly the non-blank, non-NUL characters, each at the column equal to its index in the column-expanded row (a NUL filler in column 0 keeps the next character in column 1); escape_line stubbed by identity (rows without quotes)
 //@ encodes: From<StringBuffer> for CellBuffer
 #[kani::proof]
